@@ -21,13 +21,30 @@ func C09(c *core.Ctx) {
 	c.SetCov("rule", "seeded randomised sessions with 40-bit rates at the boundaries (0, 1, 7, 8, 2^40-1), both gate bits, QFI 0..63 and per-QFI burst configurations; "+
 		"UP4 shards: the app_meter / session_meter cells named by the forwarding entries of the harness' P4Runtime switch are judged after establishments and after QER updates; "+
 		"GEN: TLC enumerates from spec/Up4QosScript.tla every behaviour of 3 (thorough: 4) operations over {8 establishment shapes (1 or 2 flows, with / without a session-level QER, flow QERs with / without "+
-		"guaranteed rates), session-level QER below / above the flows' rates, flow QER symmetric / asymmetric / above the session's / gate closed, add a flow, remove a flow, delete} (460 / 3 560 scripts), "+
-		"replayed into the real agent on UP4; "+
+		"guaranteed rates), session-level QER below / above the flows' rates, flow QER symmetric / asymmetric / above the session's / gate closed, add a flow, remove a flow, delete} (623 / 5 050 scripts), "+
+		"replayed into the real agent on UP4; design level: QerRoles.tla (session-QER marking, meter kinds and entry roles as coded after the repairs; 3 rates, 2 flows; complete graph) is model-checked, "+
+		"and the code before each repair as negative control; "+
 		"evaluations = script steps, distinct_nontrivial = accepted session requests")
 
 	nup4 := 3
 	if c.Thorough() {
 		nup4 = 6
+	}
+
+	// design level: how a session's QERs get their role on UP4, as coded after fixes b116398 and 9209b4c (QerRoles.tla, complete
+	// graph), and the code before each fix as negative control, where TLC must find the violation
+	if r, err := c.RunTLC(core.TLCRun{Module: "QerRoles", Cfg: "MCQerRoles.cfg", Workers: 4, HeapMB: 2048, Timeout: 5 * time.Minute, Label: "mc"}); err != nil || !r.OK() {
+		c.Inconclusive("model check of QerRoles did not pass (a counterexample is a candidate history to replay, not a verdict)")
+	} else {
+		c.AddTLC("mc", r)
+	}
+
+	for _, nc := range [][2]string{{"MCQerRolesOld.cfg", "C09_EveryQerEnforced"}, {"MCQerRolesOld2.cfg", "C09_QfiFromOwnQer"}} {
+		if r, err := c.RunTLC(core.TLCRun{Module: "QerRoles", Cfg: nc[0], Workers: 1, HeapMB: 1024, Timeout: 5 * time.Minute, Label: "mc-old"}); err != nil || r.Violated != nc[1] {
+			c.Inconclusive("negative control: %s no longer violates %s", nc[0], nc[1])
+		} else {
+			c.AddCount("negative_controls_found", 1)
+		}
 	}
 
 	// GEN: TLC enumerates from spec/Up4QosScript.tla every behaviour of 3 (thorough: 4) operations of one session whose QERs
